@@ -34,23 +34,45 @@ def generate(tier, scen, seed, sample=None):
 
 def run_scenarios(tier, seed):
     scen = os.path.join(vlib.sub("scn"), "sync.ndjson")
-    res, n = generate(tier, scen, seed, sample=5 if tier == "quick" else None)
+    res, n = generate(tier, scen, seed, sample=8 if tier == "quick" else None)
     side = os.path.join(vlib.sub("traces"), "sync.side")
     out = vlib.replay("sync", scen, side_path=side, timeout=120)
+    # library-level sessions on seeded random histories (haves per round trip 1 / 2 / 3 / 256, packfile limits)
+    import random
+    rng = random.Random(seed)
+    ses = os.path.join(vlib.sub("scn"), "sync.sessions.ndjson")
+    nses = 160 if tier == "quick" else 2000
+    with open(ses, "w") as f:
+        for i in range(nses):
+            fetch = i % 2 == 0
+            f.write(json.dumps({"seed": seed, "idx": i, "dir": "fetch" if fetch else "push", "commits": 0,
+                                "hpr": rng.choice([1, 2, 3, 256]), "maxpack": rng.choice([0, 1, 300, 2000]),
+                                "depth": rng.choice([0, 0, 1, 2]) if fetch else 0}) + "\n")
+    side2 = os.path.join(vlib.sub("traces"), "sync.sessions.side")
+    out2 = vlib.replay("syncsession", ses, side_path=side2, timeout=120)
+    # sessions are judged through their trace events; a failed session is a C09 matter
+    for idx, sig, detail in out2.failures:
+        out.failures.append((idx, sig, dict(detail, case=json.loads(vlib.read_line(ses, idx)))))
+    out.errors += out2.errors
+    out.crashes_sessions = [(idx, t) for idx, t in out2.crashes]
+    for k, c in out2.classes.items():
+        out.classes["session:" + k] = c
+    out.total += out2.total
     trace = os.path.join(vlib.sub("traces"), "sync.ndjson")
     with open(trace, "w") as g:
-        if os.path.exists(side):
-            for line in open(side):
-                line = line.strip()
-                if line:
-                    doc = json.loads(line)
-                    if doc.get("kind") == "sync":
-                        for d in doc["docs"]:
-                            g.write(json.dumps(d) + "\n")
+        for sd in (side, side2):
+            if os.path.exists(sd):
+                for line in open(sd):
+                    line = line.strip()
+                    if line:
+                        doc = json.loads(line)
+                        if doc.get("kind") == "sync":
+                            for d in doc["docs"]:
+                                g.write(json.dumps(d) + "\n")
     return res, out, scen, trace
 
 
-C09_SIGS = ("ref-not-updated", "command-failed")
+C09_SIGS = ("ref-not-updated", "command-failed", "/failed")
 C09_CLAUSES = {"ref-to-unknown-commit", "objects-lost", "history-incomplete", "objects-differ",
                "repeat-changed-something", "repeat-transferred-objects"}
 C10_SIGS = ("ref-moved-against-rules", "rejection-not-reported")
@@ -61,7 +83,10 @@ def judge(v, prop, out, scen, trace, sig_suffixes, clauses):
     if out.errors:
         raise vlib.Inconclusive("harness errors: %s" % out.errors[:3])
     mine = vlib.ReplayOutcome()
-    mine.failures = [f for f in out.failures if f[1].endswith(sig_suffixes)]
+    mine.failures = [f for f in out.failures if f[1].endswith(sig_suffixes) and "session-" not in f[1]]
+    for idx, sig, detail in out.failures:
+        if sig.endswith(sig_suffixes) and "session-" in sig:
+            v.violation(sig, dict(engine="syncsession", scenario=detail.get("case"), detail=detail))
     mine.crashes, mine.timeouts = out.crashes, out.timeouts
     vlib.absorb_replay(v, mine, "sync", scen, crash_sig=lambda sc, t: "sync/crash")
     n_traces, n_events, rejections, last = vlib.validate_traces("TraceSync", "TraceSync.cfg", trace, max_rejections=30)
